@@ -9,7 +9,7 @@ from . import c08
 
 LEVEL = "proof"
 N = {"quick": 700, "thorough": 30000}
-NDOC = {"quick": (70, 60), "thorough": (400, 3000)}     # (fixtures, grammar documents)
+NDOC = {"quick": (70, 60), "thorough": (300, 800)}     # (fixtures, grammar documents)
 
 
 def refs_of(x, out):
